@@ -40,8 +40,8 @@ def unit():
         package="paseto-core",
         inject=[(FILE, "units/u2_base64/harness.rs")],
         contracts="units/u2_base64/contracts.json",
-        harness_path="base64::verif::vharness",
-        kani_flags=["-Z", "function-contracts", "-Z", "stubbing"],
+        harness_path="base64::verif::vharness", allow_unsafe=True,
+        kani_flags=["-Z", "function-contracts", "-Z", "stubbing", "--no-assertion-reach-checks"],
         harnesses=hs,
         assumptions=["bytes offered as &str are arbitrary (superset of valid UTF-8); decode only reads as_bytes()"],
         trusted=["core::fmt::write / Formatter plumbing as compiled by Kani", "alloc::vec"],
